@@ -404,7 +404,8 @@ func term(in Input, o Obs) string {
 	}
 	return lib.App("mk_case", whr.GTable(in.Atoms, o.Texts), whr.GCalls(calls, byID),
 		lib.Bool(in.Soft), lib.Bool(in.Allow != "off"), lib.Bool(hasUnscoped(in.Steps)), lib.Bool(in.PK != 0),
-		lib.Bool(o.Missing), lib.Z(int64(o.Execs)), lib.Bool(o.Changed), lib.Bool(o.OtherErr != ""))
+		lib.Bool(o.Missing), lib.Z(int64(o.Execs)), lib.Bool(o.Changed), lib.Bool(o.OtherErr != ""),
+		lib.ListOf([]byte(o.TxEvents), func(b byte) string { return lib.Z(int64(strings.IndexByte("bcr", b))) }))
 }
 
 func shape(in Input) string {
